@@ -4,6 +4,18 @@ ROOT = os.path.dirname(os.path.dirname(os.path.abspath(__file__)))
 
 SOLVER = 'symbolic execution of the real source (verif.see) + SMT (z3 5.1) equivalence against an independent oracle circuit'
 CHECKS = {
+    'C01': dict(cat='model_checking', ref='4/C01',
+                text='CTL.modelcheck and everything below it is executed symbolically from source on a Kripke structure whose transition and label bits are unknowns: one merged run per formula covers every total structure with n<=3 states over {p,q} (n=4 with label bits forked). z3 proves the result vector equal to an independently built CTL fixpoint circuit, absence of exceptions and complete unrolling; ~2,300 formulas quick (depth<=2), more in thorough. The formula dimension is enumeration of programs.',
+                note='bounded: n<=3 merged, n=4 sampled forks (all 256 in thorough); 2 atoms; formulas from stated sets; evaluator/simplifier trusted but audited (all rewrite lemmas re-proved per run, 13 raw n=2 runs, translator validation vs native)',
+                tech=SOLVER),
+    'C02': dict(cat='model_checking', ref='4/C02',
+                text='LTL.modelcheck (closure, atom construction, tableau, SCCs, reachability) executed symbolically; per formula A g one merged run covers all total structures with n<=2 states (n=3 for small formulas in thorough); z3 proves equality with a product/Emerson-Lei oracle circuit whose fixpoint stability is itself a solver obligation; the oracle\'s exclusions are certified by solver-found concrete lassos re-evaluated by an independent lasso evaluator.',
+                note='bounded: n<=2 (3), 2 atoms, ~800 path formulas of depth<=2 plus seeded depth-3 ones, cost cut by number of elementary formulas e<=3 (4 at n=1); no raw (un-reduced) run possible for the tableau; /repo at fix commits dce0478+a1b7f49',
+                tech=SOLVER),
+    'C03': dict(cat='model_checking', ref='4/C03',
+                text='CTLS.modelcheck incl. clone, fresh-atom labelling, CTL fast path, TypeError->LTL fallback and the E=not A not branch executed symbolically; per formula one merged run covers all total structures with n<=2 (3 thorough); z3 proves equality with the CTL* product oracle circuit. ~280 formulas with quantifier nesting <=2.',
+                note='bounded: n<=2 (3), 2 atoms, formulas from stated sets (enumeration of programs); vacuity twin: some runs must encode the LTL fallback',
+                tech=SOLVER),
     'C12': dict(cat='model_checking', ref='4/C12',
                 text='compute_SCCs is executed symbolically from its source on a graph whose edge bits are unknowns: one merged run per node order covers all 2^(n*n) digraphs (n<=4 quick; n=5 with 9 forked bits and all 24 orders at n=4 thorough). The solver proves partition + mutual-reachability equivalence against a Warshall oracle circuit, absence of exceptions and complete loop unrolling; sat models are replayed natively.',
                 note='bounded: n<=4 (5 thorough); one global iteration order per run; evaluator and simplifier trusted but audited (rewrite lemmas re-proved, n=2 raw run, translator validation vs native on 150 random graphs)',
